@@ -75,7 +75,7 @@ func TestC09Child(t *testing.T) {
 		// machine an in-process hop takes microseconds and the window all but vanishes)
 		cfg.MaxDelay, cfg.DelayProb = 1500*time.Microsecond, 0.6
 	}
-	if cs.Hook == "pred-stabilized-fingers-stale" {
+	if cs.Hook == "pred-stabilized-fingers-stale" || cs.Hook == "pred-stabilized-fingers-stale-joiner-crashes" {
 		// nobody repairs fingers on its own while the state is being probed
 		cfg.FixFingerInterval = 1500 * time.Millisecond
 		cfg.StabilizeInterval = 1500 * time.Millisecond
@@ -156,9 +156,11 @@ func TestC09Child(t *testing.T) {
 		gate = r.net.AddGate(&ringsim.Gate{Method: "FinishJoin", Caller: cs.Joiner, AnyCallee: true, Nth: 1})
 	case "pred-outgoing-lookup":
 		gate = r.net.AddGate(&ringsim.Gate{Method: "FindSuccessor", Caller: predID, AnyCallee: true, Nth: cs.Nth})
-	case "pred-stabilized-fingers-stale":
+	case "pred-stabilized-fingers-stale", "pred-stabilized-fingers-stale-joiner-crashes":
 		// the joiner's advisory to its predecessor is still on its way when the predecessor's
 		// own periodic stabilize adopts the joiner: successor new, finger table old
+		// (second variant: the joiner then crash-stops before the advisory ever arrives, and the
+		// predecessor's successor list starts with a node that no longer answers)
 		gate = r.net.AddGate(&ringsim.Gate{Method: "FinishJoin", Arg: "stabilize", Caller: cs.Joiner, Callee: predID, Nth: 1})
 	}
 
@@ -183,7 +185,7 @@ func TestC09Child(t *testing.T) {
 				continue
 			}
 			st := m.Node.VerifState()
-			if st == chord.Inactive || st == chord.Left {
+			if st == chord.Inactive || st == chord.Left || m.Crashed() {
 				continue
 			}
 			for _, k := range keys {
@@ -237,7 +239,7 @@ func TestC09Child(t *testing.T) {
 		select {
 		case <-gate.Reached():
 			say("GATE reached")
-			if cs.Hook == "pred-stabilized-fingers-stale" {
+			if cs.Hook == "pred-stabilized-fingers-stale" || cs.Hook == "pred-stabilized-fingers-stale-joiner-crashes" {
 				r.members[predID].Node.VerifStabilize()
 				p := r.members[predID].Node
 				f1 := uint64(0)
@@ -247,6 +249,26 @@ func TestC09Child(t *testing.T) {
 				say("STATE pred=%d successors=%v finger1=%d", predID, vids(p.VerifSuccessors()), f1)
 			}
 			lookups("at-gate:" + cs.Hook)
+			if cs.Hook == "pred-stabilized-fingers-stale-joiner-crashes" {
+				// the joiner dies with its advisory still undelivered; its predecessor notices
+				// through its predecessor check where the joiner was its predecessor too (rings of
+				// one); the finger table is as stale as before, the head of the successor list is dead
+				if jm := r.members[cs.Joiner]; jm != nil {
+					go r.net.Crash(jm)
+					time.Sleep(5 * time.Millisecond)
+				}
+				for _, id := range sorted {
+					r.members[id].Node.VerifCheckPredecessor()
+				}
+				p := r.members[predID].Node
+				say("STATE-AFTER-CRASH pred=%d successors=%v predecessor=%v", predID, vids(p.VerifSuccessors()), p.VerifPredecessor() != nil)
+				lookups("at-gate:joiner-crashed")
+				gate.Release()
+				say("JOIN abandoned (joiner crashed)")
+				r.net.Close()
+				say("END")
+				return
+			}
 			gate.Release()
 		case err := <-joinDone:
 			say("GATE not-reached join=%v", err)
@@ -289,7 +311,7 @@ func TestC09(t *testing.T) {
 		defer mu.Unlock()
 		var last *c09Lookup
 		doneSet := map[int]bool{}
-		hang := -1
+		hang, looped := -1, -1
 		precond := ""
 		lookups := []c09Lookup{}
 		for _, line := range strings.Split(stdout.String(), "\n") {
@@ -304,6 +326,12 @@ func TestC09(t *testing.T) {
 				var i int
 				fmt.Sscanf(line, "DONE %d", &i)
 				doneSet[i] = true
+				if strings.Contains(line, "routing loop") {
+					// every hop of the simulator runs on its own goroutine, so a lookup that forwards
+					// itself for ever does not exhaust a stack: it is cut off after 5000 hops in flight.
+					// No lookup in a ring of at most five nodes needs more than a few dozen.
+					looped = i
+				}
 			case strings.HasPrefix(line, "HANG "):
 				fmt.Sscanf(line, "HANG %d", &hang)
 			case strings.HasPrefix(line, "PRECOND "):
@@ -326,6 +354,15 @@ func TestC09(t *testing.T) {
 		if hang >= 0 {
 			rec.Fail(t, "lookup-did-not-terminate", map[string]any{"case": cs, "lookup": last}, "lookup %+v still pending after 20 s", last)
 		}
+		if looped >= 0 {
+			var ll *c09Lookup
+			for i := range lookups {
+				if lookups[i].I == looped {
+					ll = &lookups[i]
+				}
+			}
+			rec.Fail(t, "lookup-forwarded-without-end", map[string]any{"case": cs, "lookup": ll}, "lookup %+v in a ring of %d nodes was forwarded until 5000 hops were in flight and only ended because the transport cut it off", ll, len(cs.IDs)+1)
+		}
 		if err != nil {
 			if strings.Contains(all, "panic:") && strings.Contains(all, "/chord/") {
 				rec.Fail(t, "lookup-panics", map[string]any{"case": cs, "last_lookup": last, "stderr_head": head(all, 3000)}, "child panicked during lookup %+v", last)
@@ -345,7 +382,7 @@ func TestC09(t *testing.T) {
 			IDs:    ids,
 			Vias:   rapid.SliceOfN(rapid.IntRange(0, 1<<20), len(ids), len(ids)).Draw(t, "vias"),
 			Via:    rapid.IntRange(0, 3).Draw(t, "via"),
-			Hook:   rapid.SampledFrom([]string{"join-request-outstanding", "joiner-first-stabilize", "joiner-first-stabilize", "joiner-outgoing-lookup", "before-finish-join", "pred-outgoing-lookup", "pred-stabilized-fingers-stale", "pred-stabilized-fingers-stale", "none"}).Draw(t, "hook"),
+			Hook:   rapid.SampledFrom([]string{"join-request-outstanding", "joiner-first-stabilize", "joiner-first-stabilize", "joiner-outgoing-lookup", "before-finish-join", "pred-outgoing-lookup", "pred-stabilized-fingers-stale", "pred-stabilized-fingers-stale", "pred-stabilized-fingers-stale-joiner-crashes", "none"}).Draw(t, "hook"),
 			Nth:    rapid.IntRange(1, 60).Draw(t, "nth"),
 			Keys:   rapid.SliceOfN(rapid.Uint64Range(0, ringMax), 3, 3).Draw(t, "keys"),
 			KeyRel: rapid.SliceOfN(rapid.IntRange(-3, 3), 6, 6).Draw(t, "keyRel"),
@@ -381,6 +418,11 @@ var c09Regressions = []c09Case{
 	// fixed scenario: the joiner's request to join has not been answered yet (state Joining, no
 	// neighbours); lookups issued to it must come back instead of waiting for the join
 	{IDs: []uint64{100, 200, 300}, Vias: []int{0, 0, 0}, Joiner: 250, Via: 0, Hook: "join-request-outstanding", Nth: 1, Keys: []uint64{50, 251}, KeyRel: []int{0, 1, -1}},
+	// fixed scenarios: a single node (and a pair) adopted the joiner through its own stabilize,
+	// its fingers still all point at itself, and the joiner crash-stops: successor list
+	// [joiner (dead), self], predecessor dropped; keys between the joiner and the node
+	{IDs: []uint64{12 << 44}, Vias: []int{0}, Joiner: 4 << 44, Via: 0, Hook: "pred-stabilized-fingers-stale-joiner-crashes", Nth: 1, Keys: []uint64{8 << 44, 5 << 44, 12<<44 - 1}, KeyRel: []int{1, 1, 1}},
+	{IDs: []uint64{12 << 44, 14 << 44}, Vias: []int{0, 0}, Joiner: 4 << 44, Via: 0, Hook: "pred-stabilized-fingers-stale-joiner-crashes", Nth: 1, Keys: []uint64{8 << 44, 5 << 44, 13 << 44}, KeyRel: []int{1, 1, 1}},
 }
 
 func head(s string, n int) string {
